@@ -442,10 +442,15 @@ type seg struct {
 func renderEntry(e eval.VerifCacheEntry) string {
 	var args []string
 	for _, a := range e.Key.Args {
-		if a == nil {
+		var slot any = a // whatever the slot type is (object.Object today): the harness must keep compiling
+		if slot == nil {
 			break
 		}
-		args = append(args, object.Value(a).Inspect())
+		if o, ok := slot.(object.Object); ok {
+			args = append(args, object.Value(o).Inspect())
+		} else {
+			args = append(args, fmt.Sprintf("?%T:%v", slot, slot))
+		}
 	}
 	return fmt.Sprintf("%s(%s)=%s/%s", Hx([]byte(e.Key.Fn)), Hx([]byte(strings.Join(args, ","))),
 		Hx([]byte(object.Value(e.Value.Result).Inspect())), Hx(e.Value.Output))
@@ -910,6 +915,16 @@ func corpus() []*Session {
 		s.Closures = []int{counter.D, nc.D, nc2.D}
 		s.Inputs = []*Expr{counter, nc, nc2, asg("a", cn("nc", li(0))), asg("b", cn("nc", li(0))), cn("a"), cn("a"), cn("b"), asg("c", cn("nc2", li(0))), asg("d", cn("nc2", li(0))),
 			cn("c"), cn("d"), cn("c"), cn("a")}
+	})
+	// text evaluated in a blank state (unjson) defines and calls a function textually identical to a session function
+	mk("mech:text-evaluated-in-another-state", func(s *Session) {
+		s.Inputs = []*Expr{raw("f = x => abs(x)"), raw("f(-2)"), raw(`catch(unjson("f = x => abs(x); f(-2)")).err`), raw("area = func(r){PI*r*r}"), raw("area(1)"),
+			raw(`catch(unjson("area = func(r){PI*r*r}; area(1)"))`), raw(`catch(eval("f(-2)"))`), raw(`unjson("g = x => x+1; g(1)")`), raw("g = x => x+1"), raw("g(1)")}
+	})
+	// typed twins: == equal big containers that differ in the type of one element / key
+	mk("mech:typed-twin-containers", func(s *Session) {
+		s.Inputs = []*Expr{raw("h = func(x){x[0]/2}"), raw("h([3,0,0,0,0,0,0,0,0])"), raw("h([3.0,0,0,0,0,0,0,0,0])"), raw("h([3,0,0,0,0,0,0,0,0])"),
+			raw("kind = func(x){type(first(x).key)}"), raw("kind({1.0:1,2:2,3:3,4:4,5:5})"), raw("kind({1:1,2:2,3:3,4:4,5:5})"), raw("kind({1.0:1,2:2,3:3,4:4,5:5})")}
 	})
 	// known finding: a function-valued root binding read (not called) under catch, then rebound to data
 	mk("finding:function-valued-binding-read-then-rebound", func(s *Session) {
@@ -2175,6 +2190,90 @@ func (c *Ctx2) wrapperSession() *Session {
 	return s
 }
 
+// every route that evaluates TEXT in another interpreter state (unjson: a blank state without root functions, constants
+// and extensions; eval: the same state) defining and calling functions textually identical to session functions whose
+// bodies use predefined identifiers / extensions / constants: purity is judged per state, results must not travel
+func (c *Ctx2) foreignStateSession() *Session {
+	s := &Session{Tag: "random-foreign-state"}
+	r := c.R
+	type fam struct{ def, call string }
+	fams := []fam{{"f = x => abs(x)", "f(-2)"}, {"area = func(r){PI*r*r}", "area(1)"}, {"func sq(x){pow(x,2)}", "sq(3)"}, {"h = func(x){print(\"h\"); x+1}", "h(1)"},
+		{"k = func(s){len(str(s))}", "k(12)"}, {"func fib(n){if n<2 {n} else {fib(n-1)+fib(n-2)}}", "fib(7)"}}
+	f := fams[r.Intn(len(fams))]
+	text := f.def + "; " + f.call
+	foreign := []string{"catch(unjson(" + strconv.Quote(text) + "))", "catch(unjson(" + strconv.Quote(text) + ")).err", "catch(eval(" + strconv.Quote(f.call) + "))",
+		"catch(unjson(" + strconv.Quote(f.call) + ")).err", "catch(eval(" + strconv.Quote(text) + "))"}
+	if r.Bool() { // the other state first: nothing may be remembered for the session either
+		s.Inputs = append(s.Inputs, raw(foreign[r.Intn(2)]))
+	}
+	s.Inputs = append(s.Inputs, raw(f.def), raw(f.call))
+	for i, n := 0, 3+r.Intn(4); i < n; i++ {
+		if r.Pct(30) {
+			s.Inputs = append(s.Inputs, raw(f.call))
+		} else {
+			s.Inputs = append(s.Inputs, raw(foreign[r.Intn(len(foreign))]))
+		}
+	}
+	return s
+}
+
+// "typed twins": a big array / map and its ==-equal twin with ONE element, nested element or key written as a float
+// (-0.0 for 0.0), passed to the same remembered function in both orders; the result reveals the typing
+func (c *Ctx2) typedTwinSession() *Session {
+	s := &Session{Tag: "random-typed-twin"}
+	r := c.R
+	n := 9 + r.Intn(4)
+	pos := r.Intn(n)
+	elems := func(float bool, zero bool) string {
+		parts := make([]string, n)
+		for i := range parts {
+			parts[i] = strconv.Itoa(i + 1)
+		}
+		switch {
+		case zero && float:
+			parts[pos] = "-0.0"
+		case zero:
+			parts[pos] = "0.0"
+		case float:
+			parts[pos] += ".0"
+		}
+		return strings.Join(parts, ",")
+	}
+	var def, a, b string
+	p := strconv.Itoa(pos)
+	switch r.Intn(5) {
+	case 0:
+		def, a, b = "tw = func(x){print(\"t\"); x["+p+"]/2}", "["+elems(false, false)+"]", "["+elems(true, false)+"]"
+	case 1:
+		def, a, b = "tw = func(x){type(x["+p+"])}", "["+elems(false, false)+"]", "["+elems(true, false)+"]"
+	case 2:
+		def, a, b = "tw = func(x){1.0/x["+p+"]}", "["+elems(false, true)+"]", "["+elems(true, true)+"]"
+	case 3:
+		def, a, b = "tw = func(x){println(x[0][0]/2); len(x)}", "[[1],"+elems(false, false)+"]", "[[1.0],"+elems(false, false)+"]"
+	default:
+		pairs := func(float bool) string {
+			parts := make([]string, 0, n)
+			for i := 1; i <= 5+r.Intn(1); i++ {
+				k := strconv.Itoa(i)
+				if float && i == 1 {
+					k += ".0"
+				}
+				parts = append(parts, k+":"+strconv.Itoa(i))
+			}
+			return "{" + strings.Join(parts, ",") + "}"
+		}
+		def, a, b = "tw = func(x){type(first(x).key)}", pairs(false), pairs(true)
+	}
+	if r.Bool() {
+		a, b = b, a
+	}
+	s.Inputs = []*Expr{raw(def), raw("tw(" + a + ")"), raw("tw(" + b + ")"), raw("tw(" + a + ")"), raw("tw(" + b + ")")}
+	if r.Bool() {
+		s.Inputs = append(s.Inputs, raw("w = func(){tw("+b+")}"), raw("w()"), raw("w2 = func(){tw("+a+")}"), raw("w2()"))
+	}
+	return s
+}
+
 func runC04(c0 *Ctx) {
 	c := &Ctx2{Ctx: c0, seen: map[string]int{}}
 	log.SetOutput(io.Discard)
@@ -2191,7 +2290,7 @@ func runC04(c0 *Ctx) {
 		"oracle: no call of such a writer or of its callers may appear in the cache); each run cache on and cache off on the implementation (direct oracle) and on the extracted model. " +
 		"non-trivial = distinct session that ends with a non-empty cache"
 	// every identifier the generator uses must be free in a fresh state (not an extension, not a predefined function)
-	for _, name := range []string{"f", "g", "h", "id", "mk", "a", "b", "c", "d", "w", "k", "x", "y", "t", "n", "m", "p", "q", "r", "s", "X", "N", "F", "fib", "f2", "k4", "v", "nx", "tw", "tt", "m", "vf", "wy", "A", "pick", "fa", "fb", "slow", "sc", "fr", "K", "LEVEL", "LIMIT", "base", "fm", "fk", "m4", "a8", "sq", "get", "gy", "ARG", "N1", "Y", "rr", "counter", "nc", "nc2", "box", "b1", "b2"} {
+	for _, name := range []string{"f", "g", "h", "id", "mk", "a", "b", "c", "d", "w", "k", "x", "y", "t", "n", "m", "p", "q", "r", "s", "X", "N", "F", "fib", "f2", "k4", "v", "nx", "tw", "tt", "m", "vf", "wy", "A", "pick", "fa", "fb", "slow", "sc", "fr", "K", "LEVEL", "LIMIT", "base", "fm", "fk", "m4", "a8", "sq", "get", "gy", "ARG", "N1", "Y", "rr", "counter", "nc", "nc2", "box", "b1", "b2", "area", "w2"} {
 		st := eval.NewState()
 		st.Out, st.LogOut = io.Discard, io.Discard
 		res, _ := evalProtected(st, parser.New(lexer.New(name)).ParseProgram())
@@ -2235,7 +2334,11 @@ func runC04(c0 *Ctx) {
 			case 2:
 				c.session(c.impureResultSession())
 			default:
-				switch (i / 40) % 6 {
+				switch (i / 40) % 8 {
+				case 7:
+					c.session(c.typedTwinSession())
+				case 6:
+					c.session(c.foreignStateSession())
 				case 5:
 					c.session(c.macroSession())
 				case 4:
